@@ -45,7 +45,7 @@ PLAN = {
     "C08": dict(
         title="Announced layer shapes equal produced shapes; transitions lose nothing",
         level="proof",
-        verus=["C08_output_size.rs", "C08_flat_accept.rs", "C02_convolve.rs", "C02_deconv_forward.rs"],
+        verus=["C08_output_size.rs", "C08_flat_accept.rs", "C02_convolve.rs", "C02_deconv_forward.rs", "C02_maxpool_forward.rs", "C02_pad3d.rs"],
         kani=True,
         native_checks=[("isqrt.floor", "(size as f32).sqrt() as usize == floor(sqrt(size)) for every size < 2^24: the contract of the opaque "
                                        "isqrt_f32 assumed by the flat-size units, by exhaustion on the real expression")],
